@@ -303,6 +303,8 @@ class P(Prop):
         for b in base:
             for k in range(30 if tier == "quick" else 600):
                 yield dict(b, final=[[2], [3], [4]] + [[1, g] for g in range(5)], seed=0, policy="np", pb1=k)
+            for k in range(0 if tier == "quick" else 800):
+                yield dict(b, final=[[2], [3], [4]] + [[1, g] for g in range(5)], seed=0, policy="np", pb2=k)
 
     def impl(self, case):
         return S.pb_run(case, run_case)
